@@ -28,6 +28,8 @@ REVERSED_FIXES = {
 }
 # seeded changes that also break a neighbouring property whose check sees them far more reliably
 EXTRA_CHECKS = {"C17-m1": ["C09"]}
+# changes that need more simulated time than the quick tier spends (stated in DESIGN.md 9.6): checked with the thorough tier
+THOROUGH_ONLY = {"P06-w5m1"}
 # (file, old, new, replace-all?, checks)
 HAND = {
     "H01_df_view": ("menelaus/detector.py", "ary = X.values.copy()", "ary = X.values", True, ["C15"]),
@@ -78,7 +80,7 @@ def main():
     a = ap.parse_args()
     mutants = []
     import re
-    for d in sorted(glob.glob(os.path.join(HERE, "seeded", "[CF][0-9][0-9]-*"))):
+    for d in sorted(glob.glob(os.path.join(HERE, "seeded", "[CFP][0-9][0-9]-*"))):
         name = os.path.basename(d)
         if name.startswith("C"):
             checks = [name[:3]] + EXTRA_CHECKS.get(name, [])
@@ -122,7 +124,9 @@ def main():
                 open(p, "w").write(s.replace(old, new))
             r = {"applied": True, "checks": {}}
             for prop in (ALL if a.all_checks else checks):
-                r["checks"][prop] = run_check(scratch, prop, a.tier)
+                r["checks"][prop] = run_check(scratch, prop, "thorough" if name in THOROUGH_ONLY else a.tier)
+            if name in THOROUGH_ONLY:
+                r["tier"] = "thorough"
             r["caught_by"] = [p for p, v in r["checks"].items() if v["caught"]]
             r["expected"] = checks
             results[name] = r
